@@ -322,7 +322,8 @@ def scenarios_c15(r, tier):
                 break
     # no failure: nested dirs, symlinks to a file and to a directory, several path arguments
     tree = {'p/a.py': good[0], 'p/b.txt': b'text  =  1', 'p/q/c.pyw': good[1], 'p/q/r/d.py': good[2], 'p/Makefile': b'all:\n\tpass\n',
-            'p/q/e.py.bak': b'k  =  1\n', 'p/legacy.py': COOKIE_SRC, 'p/q/legacy_window.pyw': COOKIE2_SRC, 'p/q/r/utf8.py': good[6], 'p/bom.py': good[7], 'x.py': good[3], 'outside/z.py': good[0], 'p/ln.py': ('link', '../outside/z.py'), 'p/lnd': ('link', '../outside')}
+            'p/q/e.py.bak': b'k  =  1\n', 'p/a.py.tmp': b'tmp  =  1\n', 'p/a.py~': b'bk  =  1\n', 'p/a.pyi': b'x: int\n', 'p/a.py.orig': b'orig  =  1\n', 'p/.a.py.swp': b'swap', 'p/a.py.lock': b'',
+            'p/q/c.pyw.tmp': b'tmp  =  2\n', 'p/q/c.pyw.new': b'new  =  2\n', 'p/q/tmp': b'plain', 'p/a.tmp': b'a tmp', 'p/a': b'no extension  =  1\n', 'x.py.tmp': b'tmp  =  3\n', 'x.tmp': b't', 'p/a.py.d/keep.txt': b'dir sibling', 'p/legacy.py': COOKIE_SRC, 'p/q/legacy_window.pyw': COOKIE2_SRC, 'p/q/r/utf8.py': good[6], 'p/bom.py': good[7], 'x.py': good[3], 'outside/z.py': good[0], 'p/ln.py': ('link', '../outside/z.py'), 'p/lnd': ('link', '../outside')}
     out.append({'paths': ['p', 'x.py'], 'files': tree, 'flags': ['--in-place']})
     out.append({'paths': ['p'], 'files': tree, 'flags': ['--in-place', '--rename-globals']})
     out.append({'paths': ['x.py'], 'files': tree, 'flags': [], 'output': 'o.py'})
